@@ -158,6 +158,7 @@ func cmdCheck(args []string) int {
 	hintsTried, hintsFailed := 0, 0
 	hintStale := map[string]bool{}
 	abstractedIn := map[string][]string{}
+	bareLoopsIn := map[string][]string{}
 	HintSolver = func(obls []*Obligation) {
 		(&Solver{Dir: hintDir, Timeout: 10, Par: solverPar(), Prelude: e.Prelude(), QFPrelude: e.QFPrelude(), Eng: e, noRetry: true}).SolveAll(obls)
 	}
@@ -223,6 +224,10 @@ func cmdCheck(args []string) int {
 			// them cannot be proved whether or not the property holds - a limit of the tool, not a violation (same rule as
 			// for stale contracts: a violation only with a failing input replayed on the real code).
 			abstractedIn[k] = res.Abstracted
+		}
+		if len(res.BareLoops) > 0 {
+			bareLoopsIn[k] = res.BareLoops
+			fmt.Printf("note: %s: %s\n", k, strings.Join(res.BareLoops, "; "))
 		}
 		for _, o := range res.Obligations {
 			if oblHasProp(o, prop) {
@@ -313,6 +318,11 @@ func cmdCheck(args []string) int {
 	for k := range abstractedIn {
 		staleFns[k] = true
 	}
+	// a loop without an invariant (on the unchanged tree: only loops whose effect no obligation depends on; the list is
+	// in bare_loops_expected below): the contract was not written for this code
+	for k := range bareLoopsIn {
+		staleFns[k] = true
+	}
 	for _, u := range unsupported {
 		oc.undecided = append(oc.undecided, "unsupported: "+u)
 		if k := strings.Index(u, ": "); k > 0 {
@@ -364,6 +374,8 @@ func cmdCheck(args []string) int {
 			why := "the contract of " + obs[0].Func + " no longer matches the code (hypotheses were lost)"
 			if ab := abstractedIn[obs[0].Func]; len(ab) > 0 {
 				why = obs[0].Func + " calls " + strings.Join(ab, ", ") + ", for which there is no contract (results arbitrary)"
+			} else if bl := bareLoopsIn[obs[0].Func]; len(bl) > 0 {
+				why = "in " + obs[0].Func + " the " + strings.Join(bl, ", ") + " (everything it assigns is unknown behind it)"
 			}
 			oc.undecided = append(oc.undecided, fmt.Sprintf("obligation %s failed, but %s and the witness family has no failing input: not reported as a violation", id, why))
 			continue
